@@ -623,6 +623,11 @@ def run_cache(facts, out):
                         cty = b.locals[cl].get('closure') if cl is not None else None
                         cb = facts.bodies.get(cty) if cty else None
                         ok = cb is not None and _returns_curve_new(facts, cb, set())
+                        if not ok and cb is not None:
+                            # `|| calculate(*mode, control_points, *expected_dist)`: the fill closure calls a closure that is
+                            # a parameter of this helper -- every caller must hand in a closure returning Curve::new, and the
+                            # key fields must be what it is called with
+                            ok = _fill_through_closure_param(facts, b, cl, cb, owner)
                         out.add('CI', b.path, 'cache-fill', loc_of(t['sp']), ok,
                                 '' if ok else 'cache is filled by a closure that does not return Curve::new of the path\'s own key fields')
                         continue
@@ -967,6 +972,51 @@ def _value_from_self_curve(facts, body, o):
 
 def _is_curve_new_path(p):
     return p == 'section::hit_objects::slider::curve::Curve::new'
+
+
+def _fill_through_closure_param(facts, b, cl, cb, owner):
+    from ed import reaching_defs_of_return
+    rd = reaching_defs_of_return(cb)
+    calls = []
+    for r, defs in rd.items():
+        for d in defs:
+            if d == 'entry' or d[1] != 'term':
+                return False
+            calls.append(cb.term(d[0]))
+    if not calls:
+        return False
+    # the aggregate that builds the fill closure in b
+    vd = value_def(b, cl)
+    if not (vd and vd[0] == 'assign' and vd[1]['rv']['k'] == 'aggr' and vd[1]['rv'].get('ak') == 'closure'):
+        return False
+    ops = vd[1]['rv']['ops']
+    for t in calls:
+        c = callee_of(t)
+        if not c or c.get('trait') not in ('std::ops::FnOnce', 'std::ops::FnMut', 'std::ops::Fn') or not t['args']:
+            return False
+        # the callee closure value: a capture `_1.k` of the fill closure
+        pl = op_place(t['args'][0])
+        k = None
+        for _ in range(8):
+            if pl is None:
+                break
+            if pl['l'] == 1 and any(e['k'] == 'field' for e in pl['p']):
+                k = [e['n'] for e in pl['p'] if e['k'] == 'field'][0]
+                break
+            if pl['p'] and not all(e['k'] == 'deref' for e in pl['p']):
+                break
+            defs = cb.defs.get(pl['l'], [])
+            if len(defs) != 1 or defs[0][2] != 'assign':
+                break
+            rv = defs[0][3]['rv']
+            pl = op_place(rv['op']) if rv['k'] in ('use', 'cast') else (rv['pl'] if rv['k'] in ('ref', 'rawptr') else None)
+        try:
+            k = int(k)
+        except (TypeError, ValueError):
+            return False
+        if k >= len(ops) or not _callers_closures_return_curve(facts, b, ops[k]):
+            return False
+    return True
 
 
 def _callers_closures_return_curve(facts, body, o):
